@@ -115,6 +115,7 @@ func main() {
 	}
 	_ = os.MkdirAll(outDir, 0755)
 	genProxy()
+	genProxyCFG()
 }
 
 type lines struct{ b strings.Builder }
